@@ -25,7 +25,7 @@ RULE = ("a case places secret fields (aes / xor / best) at the root, in sub-sche
         "opens during dumps/loads contains no key file other than the expected ones, (4) a fresh configuration (new "
         "objects; 1 in 40 in a new process) loading the document gets every plaintext back; non-trivial = >= 2 "
         "non-empty secrets at >= 2 depths; distinct = distinct case content")
-REQUIRED = ("key_file_names_a_shell_would_expand", "failed_loads_before_key_rotation", "saves_after_key_files_were_replaced", "items_handed_over_to_a_second_configuration", "sections_saved_without_a_reference_to_the_root", "saves_failed_for_missing_key_directory", "layout:two-types-one-schema-different-keyfiles", "layout:only-keyed-subtrees", "layout:transplanted-subconfig", "layout:names-inherited-file", "documents_scanned_for_tokens", "ciphertexts_decrypted_by_oracle", "keyfile_open_sets_checked",
+REQUIRED = ("layout:section-used-on-its-own-before-joining-the-tree", "key_file_names_a_shell_would_expand", "failed_loads_before_key_rotation", "saves_after_key_files_were_replaced", "items_handed_over_to_a_second_configuration", "sections_saved_without_a_reference_to_the_root", "saves_failed_for_missing_key_directory", "layout:two-types-one-schema-different-keyfiles", "layout:only-keyed-subtrees", "layout:transplanted-subconfig", "layout:names-inherited-file", "documents_scanned_for_tokens", "ciphertexts_decrypted_by_oracle", "keyfile_open_sets_checked",
             "reloads_compared", "layout:root-ctor", "layout:root-attr", "layout:sub", "layout:ctype", "layout:default",
             "secrets_in_list_items", "rekey_after_first_use", "new_process_reloads")
 ASSUMPTIONS = ["only files under the sandbox root are considered; HOME is redirected so the default key file is sandboxed",
@@ -105,6 +105,7 @@ def generate(rng, ctx):
         values["lst"].insert(rng.randrange(len(values["lst"]) + 1), rng.choice(values["lst"]))
     # after the saves: (a failed load, then) every key file gets new content from outside and the SAME object is saved again
     layout["rotate"] = rng.choice([None, None, "plain", "after-failed-load"])
+    layout["standalone_a"] = rng.random() < 0.25
     # ... and items are handed over, as objects, to a second configuration that names another key file
     layout["move_items"] = rng.random() < 0.3
     fmts = rng.sample(trees.FORMATS, rng.choice([1, 2, 3]))
@@ -274,6 +275,21 @@ def run(case, ctx, res):
         donor.dumps("json")  # the donor tree has used its own key file already
         cfg.a = donor.a
         res.count("layout:transplanted-subconfig")
+    if lay.get("standalone_a") and not (lay["a"] or lay["ab"] or lay.get("transplant_a")):
+        # the section is first built and used on its own (nobody names a key file: the default one serves), then it becomes
+        # part of this tree - from then on it follows the tree
+        free = schema.a()
+        free.s = case["values"]["a.s"]
+        free.dsec = dict(case["values"].get("a.dsec", {}))
+        free.b.s = case["values"]["a.b.s"]
+        free.b.c.s = case["values"]["a.b.c.s"]
+        try:
+            free.dumps("json")
+        except Exception as exc:
+            res.viol("M-save", "dumps-raises:standalone-section", "dumps of a section configuration built on its own raised %r" % (exc,))
+            return
+        cfg.a = free
+        res.count("layout:section-used-on-its-own-before-joining-the-tree")
     for name in ("root-ctor" if lay["root"] == "ctor" else "root-attr" if lay["root"] == "attr" else "default",):
         res.count("layout:" + name)
     if lay["a"] or lay["ab"]:
